@@ -2,6 +2,7 @@ SPECIFICATION Spec
 CONSTANTS
   MaxBefore = 2
   MaxAfter = 1
+  MaxBeforeMarket = 0
 INVARIANT TypeOK
 INVARIANT C11_RejectsInvalid
 CONSTRAINT Emit
